@@ -44,6 +44,8 @@ def run(db, rep, tier):
     rep.rule("R8-ds-address-table", "which of addr1/2/3 is the BSSID, the source and the destination follows the 802.11 To-DS / From-DS table "
                                     "in every key and access-point look-up", 4)
     r8(db, rep)
+    rep.rule("R9-per-station", "completing (or restarting) one station's handshake touches only that station's entry of the capturer's table", 1)
+    r9(db, rep)
     rep.explanation = ("Also decides the step table of RSNHandshakeCapturer::do_insert (R4: append iff next expected, keep state on a "
                        "retransmission of the last stored message). Decides two clauses of C09: 'frames whose integrity check fails are never reported as decrypted' "
                        "(guard dominance on every non-null return) and 'decrypting truncated/corrupted/hostile protected "
@@ -501,3 +503,31 @@ def r8(db, rep):
             rep.violation("R8-ds-address-table", key, facts.loc(f, top), bad + ": keys and access points are looked up under the wrong station")
         else:
             rep.ok("R8-ds-address-table", key, facts.loc(f, top), "%s selected per 802.11 for (0,0), (0,1), (1,0)" % "/".join(roles))
+
+
+def r9(db, rep):
+    REC = "Tins::RSNHandshakeCapturer"
+    n = 0
+    for f in sorted(db.functions.values(), key=lambda x: x["id"]):
+        if f.get("rec") != REC or not f.get("body") or f.get("kind") in ("ctor", "dtor"):
+            continue
+        for x in facts.fn_nodes(f):
+            if x["k"] != "CXXMemberCallExpr" or not x["c"] or not x["c"][0].get("c"):
+                continue
+            obj = facts.strip_all(x["c"][0]["c"][0])
+            if not (obj["k"] == "MemberExpr" and obj.get("member") == "handshakes_" and obj.get("isfield")):
+                continue
+            cn = x.get("cname")
+            if cn in ("clear", "swap", "erase") or cn == "operator=":
+                n += 1
+                key = "%s:handshakes_.%s#%d" % (f["qual"].split("::")[-1], cn, n)
+                if cn == "erase" and len(x["c"]) == 2:
+                    rep.ok("R9-per-station", key, facts.loc(f, x), "erases one entry (`%s`)" % facts.expr_str(x["c"][1])[:40])
+                elif f["qual"].endswith("::clear_handshakes") or f["qual"].endswith("::clear"):
+                    rep.ok("R9-per-station", key, facts.loc(f, x), "the user-requested reset")
+                else:
+                    rep.violation("R9-per-station", key, facts.loc(f, x),
+                                  "handshakes_.%s() in %s drops the partial handshakes of every station: with handshakes overlapping in time "
+                                  "only the first to complete yields keys" % (cn, f["qual"].split("::")[-1]))
+    if n < 1:
+        rep.analysis_broken("no erase of a completed handshake found in RSNHandshakeCapturer")
